@@ -121,9 +121,18 @@ func (o *c09) Step(r *StepRec) []Violation {
 			o.fail("c09:immutable:"+a.Kind, "immutable field of context %s changed in %s", short(id), a.Kind)
 		}
 		targeted := targetsCtx(a) && a.CtxID == id
+		// the configuration changes only through a successful update of this very context
+		if !(targeted && (a.Kind == KUpdateCtx || a.Kind == KModUpdate)) {
+			if !sameAddrs(provHexes(p0), provHexes(p1)) || !p0.ServiceFeeCap.IsEqual(p1.ServiceFeeCap) || p0.Timeout != p1.Timeout ||
+				p0.RepeatedFrequency != p1.RepeatedFrequency || p0.RepeatedTotal != p1.RepeatedTotal || p0.ResponseThreshold != p1.ResponseThreshold {
+				o.fail("c09:config:"+a.Kind, "configuration (providers/cap/timeout/frequency/total/threshold) of context %s changed in %s", short(id), a.Kind)
+			}
+		}
 		if p0.State != p1.State {
 			legal := false
 			switch {
+			case a.Kind == KRestart && p1.State == stPaused:
+				legal = true // a zero-height restart leaves every context paused
 			case p0.State == stRunning && p1.State == stPaused:
 				legal = (targeted && (a.Kind == KPause || a.Kind == KModPause) && p0.Repeated) ||
 					(a.Kind == KEndBlock && !p0.SuperMode && isCandidate(pre, r.Height, id))
@@ -159,7 +168,7 @@ func (o *c09) Step(r *StepRec) []Violation {
 				}
 			}
 		}
-		if p0.State == stCompleted {
+		if p0.State == stCompleted && a.Kind != KRestart {
 			if p1.BatchCounter != p0.BatchCounter || !sameAddrs(provHexes(p0), provHexes(p1)) || !p0.ServiceFeeCap.IsEqual(p1.ServiceFeeCap) ||
 				p0.Timeout != p1.Timeout || p0.RepeatedFrequency != p1.RepeatedFrequency || p0.RepeatedTotal != p1.RepeatedTotal ||
 				p0.ResponseThreshold != p1.ResponseThreshold {
@@ -306,6 +315,12 @@ func (o *c10) Step(r *StepRec) []Violation {
 	}
 	for _, id := range sortedKeys(post.Ctxs) {
 		o.observe(id, post.Ctxs[id])
+	}
+	if a.Kind == KRestart {
+		// the restart ends every batch in flight (fees refunded, no expiry left): the next batch may start at once
+		for _, t := range o.tr {
+			t.stable, t.disturbed, t.timeoutAt = false, true, 0
+		}
 	}
 	if targetsCtx(a) {
 		if rc, ok := pre.Ctxs[a.CtxID]; ok && rc.Repeated && int64(rc.BatchCounter) == rc.RepeatedTotal {
@@ -470,6 +485,12 @@ func (o *c12) Step(r *StepRec) []Violation {
 			} else {
 				o.hit("module_batch_threshold_met")
 			}
+		}
+	}
+	if a.Kind == KRestart {
+		// every context restarts with no batch in flight and zeroed counts; no callbacks
+		for _, t := range o.bt {
+			t.completed, t.issued, t.accepted, t.outputs, t.expiry = true, 0, 0, nil, 0
 		}
 	}
 	// 1. accepted response
